@@ -51,6 +51,7 @@ def dispatch (prop : String) (c obs : String) : String × String × Bool :=
   | "C20e2e" => C12.run c obs
   | "C16res" => C12.run c obs
   | "C05e2e" => C12.run c obs
+  | "C14e2e" => C12.run c obs
   | "C06" => C06.run c obs
   | "C06sev" => let m := C06.runSev c; (m, if m == obs then "ok" else "severity-differs-from-the-classifier-model", m == obs)
   | "C14" => C14.runSched c obs
